@@ -155,6 +155,35 @@ def cqm_checks_tiling():
     return helper
 
 
+def cqm_opener_compared_fields():
+    """round 8: the attributes of the DIRECTORY entry (`info.<attr>`) that `_open_archive` compares with something read from the
+    file at the member's position (Compare nodes inside the loop over `zf.infolist()`), sorted; [] without the helper"""
+    import ast
+    import textwrap
+    if not hasattr(cqm_mod, '_open_archive'):
+        return []
+    tree = ast.parse(textwrap.dedent(inspect.getsource(cqm_mod._open_archive)))
+    found = set()
+    for loop in ast.walk(tree):
+        if isinstance(loop, ast.For):
+            for node in ast.walk(loop):
+                if isinstance(node, ast.Compare):
+                    for sub in ast.walk(node):
+                        if isinstance(sub, ast.Attribute) and isinstance(sub.value, ast.Name) and sub.value.id == 'info':
+                            found.add(sub.attr)
+    return sorted(found)
+
+
+def cqm_checks_local_headers():
+    """does the walk compare the local header's signature, name and recorded size with the directory entry?"""
+    if not hasattr(cqm_mod, '_open_archive'):
+        return False
+    flat = inspect.getsource(cqm_mod._open_archive).replace(' ', '')
+    fields = cqm_opener_compared_fields()
+    return ('compress_size' in fields and 'orig_filename' in fields and 'header_offset' in fields
+            and "local[:4]!=b'PK\\x03\\x04'" in flat and "size!=info.compress_size" in flat)
+
+
 def header_reads_fully():
     flat = inspect.getsource(fv.read_header).replace(' ', '')
     return 'whilelen(header_bytes)<header_len:' in flat
@@ -195,6 +224,13 @@ def more_consts():
            '/-- does `ConstrainedQuadraticModel.from_file` check that the archive members tile the file from the end of the',
            '    header to the central directory (`_open_archive`) instead of calling `zipfile.ZipFile` directly? -/',
            f'def cqmChecksArchiveTiling : Bool := {"true" if cqm_checks_tiling() else "false"}',
+           '/-- round 8: the attributes of the directory entry that the walk of `_open_archive` compares with what it reads at the',
+           '    member\'s position in the file (ast of the loop over `zf.infolist()`) -/',
+           'def cqmOpenerComparedFields : List String := [' + ', '.join(f'"{x}"' for x in cqm_opener_compared_fields()) + ']',
+           '/-- round 8: does the walk require the LOCAL header (signature, name, recorded size; zip64: the extra field) to agree with',
+           '    the directory entry (`patches/cqm-archive-local-headers.diff`)?  Without it a directory spelled by the payload can',
+           '    list a cover member over the real ones (`C10.tiling_walk_trusts_directory_size`). -/',
+           f'def cqmChecksLocalHeaders : Bool := {"true" if cqm_checks_local_headers() else "false"}',
            '/-- does `read_header` read the header dictionary fully (loop until `header_len` bytes or end of file)? -/',
            f'def headerReadsFully : Bool := {"true" if header_reads_fully() else "false"}',
            ]
